@@ -19,13 +19,13 @@ chk("C20", "Coq theorems over the model of Position::from_index, Parser::error's
 chk("C10", "Coq theorems for the three facts the bitmap skipper rests on, for all inputs: the escaped-character bitmap (get_escaped_branchless, any even width, carry across blocks), prefix_xor = running quote parity, and 'counting one bracket kind stops exactly at the matching bracket'; plus soundness of the validating skipper used by the checked walker. Tie: 15 lookup variants (checked/unchecked x 5 carriers, LazyValue/OwnedLazyValue/Value pointer) on generated well-formed documents and block-edge documents, spans compared with lookup on the executable reference parse.",
     "The per-block popcount bookkeeping of skip_container_loop and the path walkers are tied by the correspondence only; the reference parser (Spec/Ref.v) is cross-checked against the verified recogniser on every C02 case.",
     "Coq proof (bit-list induction, counting argument) + model-vs-code correspondence")
-chk("C11", "Coq theorem: every slot the model of get_many_rec/get_many_keys (with the list of walked nodes the code keeps since the repair of F37) fills holds exactly what single-path lookup finds for that slot's path, on EVERY document tree - repeated member names included - path trie and early-exit pattern (mutual fuel induction, Model/ManySeen.v); the search without that list is refuted on a repeated name and equals the repaired one on documents without. Tie: get_many/get_many_unchecked on generated documents x path sets judged slot by slot by the extracted reference lookup, and - for paths of member names - compared with the slot vector the extracted search model rec2 computes over the extracted build of the path tree (the theorems' own subject is run against the code); get_by_schema against the reference merge.",
+chk("C11", "Coq theorem: every slot the model of get_many_rec/get_many_keys (with the list of walked nodes the code keeps since the repair of F37) fills holds exactly what single-path lookup finds for that slot's path, on EVERY document tree - repeated member names included - path trie and early-exit pattern (mutual fuel induction, Model/ManySeen.v); the search without that list is refuted on a repeated name and equals the repaired one on documents without. Tie: get_many/get_many_unchecked on generated documents x path sets judged slot by slot by the extracted reference lookup (documents without repeated names, as the property states), and - for paths of member names, repeated names included - compared with the slot vector the extracted search model rec2 computes over the extracted build of the path tree (the theorems' own subject is run against the code); get_by_schema against the reference merge.",
     "The model works on the parsed tree (objects); arrays and the text-level walk are covered by the correspondence; completeness (all slots filled when every path resolves) is checked by the verdict op, not yet proved.",
     "Coq proof (invariant over the recursive extraction) + model-vs-code correspondence")
 chk("C12", "Coq theorems: the iterator state machine (first/ending flags around parse_array_elem_lazy / parse_entry_lazy) is latched for every poll sequence and every behaviour of the underlying parser; every yielded element was stepped over by the validating skipper, hence is a well-formed value. Tie: checked/unchecked iterators and LazyValue::into_*_iter over 3 carriers on generated/mutated/trailing-garbage inputs, transcript (spans, decoded keys, terminal, 3 extra polls) compared with the executable reference iterator.",
     "That the yielded spans are exactly the members (count and order) is decided by the correspondence against Spec.Ref.ref_array_iter/ref_object_iter, not yet by a theorem.",
     "Coq proof (state-machine invariant) + model-vs-code correspondence")
-chk("C14", "Coq theorems: whatever the validating skipper steps over or returns on arbitrary bytes is whitespace + an RFC 8259 value (strings with checked hex digits, numbers by the RFC grammar); tie: checked get (6 carriers), get_many and the checked iterators on mutated documents and every prefix of small documents; each returned span must equal Spec.Ref.ref_get (the executable decision procedure of 'well-formed up to and including the returned value') and its prefix must be valid UTF-8.",
+chk("C14", "Coq theorems: whatever the validating skipper steps over or returns on arbitrary bytes is whitespace + an RFC 8259 value (strings with checked hex digits, numbers by the RFC grammar); tie: checked get (6 carriers), get_many and the checked iterators on mutated documents and every prefix of small documents; each returned span must equal Spec.Ref.ref_get (the executable decision procedure of 'well-formed up to and including the returned value') and its prefix must be valid UTF-8; on well-formed documents that repeat member names every filled slot of get_many must be exactly one well-formed value inside the input (F37).",
     "One-directional by the property's wording: the implementation may reject more than the reference (counted in the evidence as impl-chose-alternative).",
     "Coq proof (grammar soundness of the skipper on arbitrary bytes) + model-vs-code correspondence")
 
